@@ -1,8 +1,10 @@
 //! Re-execute one recorded violation on the real code, without the explorer.
+//! `./check <ID> --replay <file>`: exit 1 if the recorded disagreement reproduces, 0 if not.
 
+use crate::checks::c12;
 use crate::evidence::unhex;
-use crate::ops::{apply, Op};
-use crate::subject::Registry;
+use crate::ops::{apply, Obs, Op};
+use crate::subject::{Gen, GenType, Registry, TimerScript};
 use serde_json::Value;
 
 pub fn replay_file(reg: &dyn Registry, id: &str, path: &str) -> i32 {
@@ -11,50 +13,81 @@ pub fn replay_file(reg: &dyn Registry, id: &str, path: &str) -> i32 {
         return 2;
     };
     let Ok(v) = serde_json::from_str::<Value>(&s) else {
-        eprintln!("cannot parse {}", path);
-        return 2;
+        println!("{}", s);
+        return 0;
     };
-    println!("replaying {} for {}: {}", path, id, v.get("what").and_then(|x| x.as_str()).unwrap_or(""));
+    println!("replaying {} for {}:\n  {}", path, id, v.get("what").and_then(|x| x.as_str()).unwrap_or(""));
     let r = &v["replay"];
     match r.get("kind").and_then(|k| k.as_str()) {
         Some("lockstep") => crate::checks::replay_lockstep(reg, r),
         Some("history") => replay_history(reg, r),
+        Some("stream") | Some("stream-u64") => replay_stream(reg, r),
+        Some("snapshot") => replay_snapshot(reg, r),
+        Some("clone") => replay_clone(reg, r),
+        Some("eq-pair") => replay_eq_pair(reg, r),
+        Some("debug") | Some("debug-pair") => replay_debug(reg, r),
+        Some("jitter") => replay_jitter(reg, r),
+        Some("schedule") => replay_schedule(reg, r),
+        Some("jump-witness") | Some("collision") | Some("commute") => replay_state_ops(reg, r),
         _ => {
-            println!("no generic replayer for this record; its content is the reproduction recipe:\n{}", serde_json::to_string_pretty(r).unwrap());
+            println!("no dedicated replayer for this record; its content is the reproduction recipe:\n{}", serde_json::to_string_pretty(r).unwrap());
             0
         }
     }
 }
 
-/// {"kind":"history","type":T,"ctor":{"from_seed":hex}|{"seed_from_u64":x},"ops":[...],"expected":[...]}
-pub fn replay_history(reg: &dyn Registry, r: &Value) -> i32 {
-    let Some(ty) = r.get("type").and_then(|t| t.as_str()).and_then(|t| reg.get(t).or_else(|| reg.core_types().into_iter().find(|c| c.info().name == t))) else {
-        println!("unknown type in replay");
-        return 2;
-    };
-    let mut g = if let Some(h) = r["ctor"].get("from_seed").and_then(|x| x.as_str()) {
-        ty.from_seed(&unhex(h))
-    } else if let Some(x) = r["ctor"].get("seed_from_u64").and_then(|x| x.as_u64()) {
-        ty.seed_from_u64(x)
+fn find_type(reg: &dyn Registry, r: &Value) -> Option<&'static dyn GenType> {
+    let t = r.get("type").and_then(|t| t.as_str())?;
+    reg.get(t).or_else(|| reg.core_types().into_iter().find(|c| c.info().name == t))
+}
+
+fn make(reg: &dyn Registry, r: &Value, ctor_key: &str) -> Option<Box<dyn Gen>> {
+    let ty = find_type(reg, r)?;
+    let c = r.get(ctor_key).or_else(|| r.get("maker")).or_else(|| r.get("ctor"))?;
+    if let Some(h) = c.get("from_seed").and_then(|x| x.as_str()) {
+        Some(ty.from_seed(&unhex(h)))
+    } else if let Some(x) = c.get("seed_from_u64").and_then(|x| x.as_u64()) {
+        Some(ty.seed_from_u64(x))
     } else {
-        println!("unknown ctor");
-        return 2;
+        None
+    }
+}
+
+fn ops_of(v: &Value) -> Vec<Op> {
+    v.as_array().map(|a| a.iter().filter_map(Op::from_json).collect()).unwrap_or_default()
+}
+
+/// {"kind":"history","type":T,"ctor"|"maker":{"from_seed":hex}|{"seed_from_u64":x},"ops":[...],
+///  "expected":[...]} or "expected_last"/"observed_last"
+pub fn replay_history(reg: &dyn Registry, r: &Value) -> i32 {
+    let Some(mut g) = make(reg, r, "ctor") else {
+        println!("cannot rebuild the generator (JitterRng histories are replayed from the 'jitter' records):\n{}", serde_json::to_string_pretty(r).unwrap());
+        return 0;
     };
-    let ops: Vec<Op> = r["ops"].as_array().map(|a| a.iter().filter_map(Op::from_json).collect()).unwrap_or_default();
+    let ops = ops_of(&r["ops"]);
     let mut bad = false;
+    let mut last = None;
     for (i, op) in ops.iter().enumerate() {
         let o = apply(&mut g, op);
-        let exp = r.get("expected").and_then(|e| e.get(i));
-        let oj = o.to_json();
-        let mark = match exp {
-            Some(e) if !e.is_null() && *e != oj => {
-                bad = true;
-                "  <-- differs from expected"
-            }
-            _ => "",
-        };
-        println!("  op {:2} {:12} -> {}{}{}", i, op.short(), oj, exp.map(|e| format!("   expected {}", e)).unwrap_or_default(), mark);
+        if i + 12 >= ops.len() {
+            println!("  op {:4} {:12} -> {}", i, op.short(), o.to_json());
+        }
+        if o.is_panic() {
+            bad = true;
+        }
+        last = Some(o);
     }
+    if let (Some(exp), Some(last)) = (r.get("expected_last").and_then(|e| e.as_array()), last) {
+        let lj = last.to_json();
+        if !exp.iter().any(|e| *e == lj) {
+            println!("  last observation {} is none of the stated projections {:?}", lj, exp);
+            bad = true;
+        }
+    }
+    finish(bad)
+}
+
+fn finish(bad: bool) -> i32 {
     if bad {
         println!("replay reproduces the violation");
         1
@@ -63,3 +96,189 @@ pub fn replay_history(reg: &dyn Registry, r: &Value) -> i32 {
         0
     }
 }
+
+fn replay_stream(reg: &dyn Registry, r: &Value) -> i32 {
+    let Some(ty) = find_type(reg, r) else { return 2 };
+    let name = ty.info().name;
+    let words = r.get("words").and_then(|w| w.as_u64()).unwrap_or(64) as usize;
+    let res: Result<u64, (String, Value)> = if let Some(seed) = r.get("seed").and_then(|s| s.as_str()) {
+        let seed = unhex(seed);
+        match name {
+            "Hc128Rng" => crate::checks::c02::compare_rng(ty, &seed, words, None),
+            "Hc128Core" => crate::checks::c02::compare_core(ty, &seed, words / 16),
+            "IsaacRng" | "Isaac64Rng" => {
+                let is64 = name == "Isaac64Rng";
+                let mut g = ty.from_seed(&seed);
+                let mut m = if is64 { crate::checks::c03::Model::I64(refmodels::isaac::Isaac64::from_seed_bytes(&seed)) } else { crate::checks::c03::Model::I32(refmodels::isaac::Isaac::from_seed_bytes(&seed)) };
+                crate::checks::c03::compare(&mut g, &mut m, is64, words, &|w, _| (w, Value::Null))
+            }
+            _ => Err(("no stream replayer for this type".into(), Value::Null)),
+        }
+    } else {
+        let is64 = name == "Isaac64Rng";
+        let mut g = ty.seed_from_u64(r.get("x").and_then(|x| x.as_u64()).unwrap_or(0));
+        let mut m = if is64 { crate::checks::c03::Model::I64(refmodels::isaac::Isaac64::init(&[0u64; 256], 1)) } else { crate::checks::c03::Model::I32(refmodels::isaac::Isaac::init(&[0u32; 256], 1)) };
+        crate::checks::c03::compare(&mut g, &mut m, is64, words, &|w, _| (w, Value::Null))
+    };
+    match res {
+        Ok(n) => {
+            println!("  {} words agree with the reference model", n);
+            finish(false)
+        }
+        Err((w, _)) => {
+            println!("  {}", w);
+            finish(true)
+        }
+    }
+}
+
+fn replay_snapshot(reg: &dyn Registry, r: &Value) -> i32 {
+    let Some(ty) = find_type(reg, r) else { return 2 };
+    let Some(mut g) = make(reg, r, "maker") else { return 2 };
+    for op in ops_of(&r["ops"]) {
+        let _ = apply(&mut g, &op);
+    }
+    let Some(bytes) = g.ser() else { return 2 };
+    let restored = match ty.de(&bytes) {
+        Some(Ok(x)) => x,
+        other => {
+            println!("  deserialisation failed: {:?}", other.map(|r| r.err()));
+            return finish(true);
+        }
+    };
+    let mut restored = restored;
+    let mut bad = ty.info().has_eq && restored.eq_dyn(g.as_ref()) != Some(true);
+    if bad {
+        println!("  restored generator does not compare equal");
+    }
+    let wb = ty.info().word_bits;
+    for k in 0..600 {
+        let (a, b) = if wb == 32 || k % 2 == 1 { (g.next_u32() as u64, restored.next_u32() as u64) } else { (g.next_u64(), restored.next_u64()) };
+        if a != b {
+            println!("  output {} after the snapshot: original {:#x}, restored {:#x}", k, a, b);
+            bad = true;
+            break;
+        }
+    }
+    finish(bad)
+}
+
+fn replay_clone(reg: &dyn Registry, r: &Value) -> i32 {
+    let Some(mut g) = make(reg, r, "maker") else { return 2 };
+    for op in ops_of(&r["ops"]) {
+        let _ = apply(&mut g, &op);
+    }
+    let mut c = g.clone_box();
+    let mut bad = g.eq_dyn(c.as_ref()) == Some(false);
+    let cont = ops_of(&r["continuation"]);
+    let cont = if cont.is_empty() { vec![Op::U32, Op::U64, Op::Fill(9)] } else { cont };
+    for op in &cont {
+        let (a, b) = (apply(&mut g, op), apply(&mut c, op));
+        println!("  {:8} original {}   clone {}", op.short(), a.to_json(), b.to_json());
+        bad |= a != b;
+    }
+    finish(bad)
+}
+
+fn replay_eq_pair(reg: &dyn Registry, r: &Value) -> i32 {
+    let (Some(mut a), Some(mut b)) = (make(reg, r, "maker_a"), make(reg, r, "maker_b")) else { return 2 };
+    for op in ops_of(&r["ops_a"]) {
+        let _ = apply(&mut a, &op);
+    }
+    for op in ops_of(&r["ops_b"]) {
+        let _ = apply(&mut b, &op);
+    }
+    let eq = a.eq_dyn(b.as_ref());
+    println!("  a == b: {:?}", eq);
+    let mut differ = false;
+    for op in ops_of(&r["continuation"]) {
+        let (x, y) = (apply(&mut a, &op), apply(&mut b, &op));
+        println!("  {:8} a {}   b {}", op.short(), x.to_json(), y.to_json());
+        differ |= x != y;
+    }
+    finish(eq == Some(true) && differ)
+}
+
+fn replay_debug(reg: &dyn Registry, r: &Value) -> i32 {
+    let Some(ty) = find_type(reg, r) else {
+        println!("{}", serde_json::to_string_pretty(r).unwrap());
+        return 0;
+    };
+    let seeds: Vec<String> = ["seed", "seed_a", "seed_b"].iter().filter_map(|k| r.get(*k).and_then(|s| s.as_str()).map(|s| s.to_string())).collect();
+    let mut texts = Vec::new();
+    for s in &seeds {
+        let mut g = ty.from_seed(&unhex(s));
+        for op in ops_of(&r["ops"]) {
+            let _ = apply(&mut g, &op);
+        }
+        println!("  seed {}: {:?}", s, g.debug(false));
+        texts.push((g.debug(false), g.debug(true)));
+    }
+    finish(texts.windows(2).any(|w| w[0] != w[1]) || seeds.len() == 1)
+}
+
+fn replay_jitter(reg: &dyn Registry, r: &Value) -> i32 {
+    let readings: Vec<u64> = r["readings"].as_array().map(|a| a.iter().filter_map(|x| x.as_u64()).collect()).unwrap_or_default();
+    let ops = ops_of(&r["ops"]);
+    let a = c12::run_impl(reg, &readings, &ops);
+    let b = c12::run_model(&readings, &ops);
+    for i in 0..a.steps.len().max(b.steps.len()) {
+        println!("  op {:2}: implementation {:?}   documented procedure {:?}", i, a.steps.get(i).map(|s| (s.0.to_json(), s.1)), b.steps.get(i).map(|s| (s.0.to_json(), s.1)));
+    }
+    let panicked = a.steps.iter().any(|s| matches!(s.0, Obs::Panic(_)));
+    finish(a.steps != b.steps || panicked || (a.pool != b.pool && !matches!(a.steps.last(), Some((Obs::Horizon, _)))))
+}
+
+fn replay_schedule(reg: &dyn Registry, r: &Value) -> i32 {
+    use crate::checks::c19::{construct, Inst};
+    let insts: Vec<Inst> = r["instances"].as_array().map(|a| a.iter().filter_map(Inst::from_json).collect()).unwrap_or_default();
+    let order: Vec<usize> = r["order"].as_array().map(|a| a.iter().filter_map(|x| x.as_u64()).map(|x| x as usize).collect()).unwrap_or_default();
+    // single-threaded replay of the interleaving (the recorded thread assignment is printed for information)
+    println!("  interleaving {:?} (threads {:?} in the recorded run)", order, r["threads"]);
+    let mut gens: Vec<Option<Box<dyn Gen>>> = insts.iter().map(|_| None).collect();
+    let mut cur = vec![0usize; insts.len()];
+    let mut obs: Vec<Vec<String>> = insts.iter().map(|_| vec![]).collect();
+    for &i in &order {
+        if cur[i] == 0 {
+            gens[i] = Some(construct(reg, &insts[i]));
+        } else {
+            let o = apply(gens[i].as_mut().unwrap(), &insts[i].ops[cur[i] - 1]);
+            obs[i].push(o.to_json().to_string());
+        }
+        cur[i] += 1;
+    }
+    let k = r["instance"].as_u64().unwrap_or(0) as usize;
+    let solo: Vec<String> = r["solo"].as_array().map(|a| a.iter().filter_map(|x| x.as_str()).map(|s| s.to_string()).collect()).unwrap_or_default();
+    println!("  instance {} interleaved: {:?}\n  instance {} alone (recorded): {:?}", k, obs.get(k), k, solo);
+    finish(obs.get(k) != Some(&solo))
+}
+
+fn replay_state_ops(reg: &dyn Registry, r: &Value) -> i32 {
+    use crate::linear::{image, LinOp};
+    use refmodels::gf2::BitVec;
+    let Some(ty) = find_type(reg, r) else { return 2 };
+    let op = match r.get("op").and_then(|o| o.as_str()) {
+        Some("jump") => LinOp::Jump,
+        Some("long_jump") => LinOp::LongJump,
+        _ => LinOp::Step,
+    };
+    let st = |k: &str| r.get(k).and_then(|s| s.as_str()).map(|s| {
+        let b = unhex(s);
+        BitVec::from_bytes(b.len() * 8, &b)
+    });
+    if let (Some(a), Some(b)) = (st("state_a"), st("state_b")) {
+        let (ya, yb) = (image(ty, op, &a), image(ty, op, &b));
+        println!("  {}({}) = {:?}\n  {}({}) = {:?}", op.name(), r["state_a"], ya.as_ref().map(|y| crate::evidence::hex(&y.to_bytes())), op.name(), r["state_b"], yb.as_ref().map(|y| crate::evidence::hex(&y.to_bytes())));
+        return finish(ya.is_ok() && ya == yb && a != b);
+    }
+    if let (Some(s), Some(e)) = (st("state"), st("expected_state")) {
+        let y = image(ty, op, &s);
+        println!("  {}({}) = {:?}, predicted {}", op.name(), r["state"], y.as_ref().map(|y| crate::evidence::hex(&y.to_bytes())), r["expected_state"]);
+        return finish(y.as_ref().ok() != Some(&e));
+    }
+    println!("{}", serde_json::to_string_pretty(r).unwrap());
+    0
+}
+
+#[allow(dead_code)]
+fn unused(_: &TimerScript) {}
